@@ -125,7 +125,7 @@ var stdInitAllowed = map[string]bool{
 	"errors": true, "io": true, "bytes": true, "strconv": true, "encoding/binary": true,
 	"unicode/utf8": true, "sort": true, "strings": true, "math/bits": true, "encoding/hex": true,
 	"encoding/base64": true, "slices": true, "cmp": true, "unicode/utf16": true,
-	"container/list": true, "math": false, "hash/crc32": false, "math/big": false, "encoding/json": false,
+	"container/list": true, "github.com/shopspring/decimal": true, "math": false, "hash/crc32": false, "math/big": false, "encoding/json": false,
 }
 
 func (e *Engine) initAllowed(p *ssa.Package) bool {
